@@ -188,12 +188,23 @@ def sync_tree(root, sub, files):
 
 
 def query_paths(cwd, target, release=False):
-    """package name -> {src, build, dist} workspace paths of target and everything below it
-    (a separate `bob query-path` process)."""
-    argv = ["query-path", "-f", "{name}|{src}|{build}|{dist}"]
-    if release:
-        argv.append("--release")
-    r = run_bob(cwd, argv + [target, target + "//*"], record=False)
+    """package name -> {src, build, dist} workspace paths (only those that exist) of target and
+    everything below it. `bob query-path` shows a package only if ALL requested directories exist,
+    so each kind is queried on its own (separate processes from the build)."""
+    res = {}
+    argv = []
+    for kind in ("src", "build", "dist"):
+        if argv:
+            argv.append("---")
+        argv += ["query-path", "-q", "-f", "{name}|%s|{%s}" % (kind, kind)]
+        if release:
+            argv.append("--release")
+        argv += [target, target + "//*"]
+    r = run_bob(cwd, argv, record=False)
     if r.rc != 0:
         raise RuntimeError("query-path failed (rc=%s):\n%s" % (r.rc, r.out[-1500:]))
-    return parse_query(r.out)
+    for line in r.out.splitlines():
+        f = line.strip().split("|")
+        if len(f) == 3 and f[1] in ("src", "build", "dist"):
+            res.setdefault(f[0], {})[f[1]] = f[2]
+    return res
